@@ -165,6 +165,8 @@ type State struct {
 	fails    []AssertFail
 	covers   map[string]bool
 	allowPanic bool
+	crashID    string
+	crashCond  *smt.Term
 	curInstr ssa.Instruction
 }
 
